@@ -78,6 +78,14 @@ func svDir() (string, error) {
 	if err := os.WriteFile(filepath.Join(d, "specs", "recorder.yaml"), []byte(fmt.Sprintf(svRecorderYAML, src)), 0o644); err != nil {
 		return "", err
 	}
+	// the same recorder under two more names, each with a parameter of its own that has a
+	// default (what an add request without initial bindings for it gets)
+	for name, param := range map[string]string{"recorderp1": `"limit": {"primitiveType": "int", "default": 3}`, "recorderp2": `"interval": {"primitiveType": "string", "default": "1s"}`} {
+		y := strings.Replace(fmt.Sprintf(svRecorderYAML, src), `"name": "recorder",`, `"name": "`+name+`",`+"\n"+` "paramspecs": {`+param+`},`, 1)
+		if err := os.WriteFile(filepath.Join(d, "specs", name+".yaml"), []byte(y), 0o644); err != nil {
+			return "", err
+		}
+	}
 	return d, nil
 }
 
